@@ -69,3 +69,4 @@ impl PlutusScripts {
         ensures r is Ok, final(serializer).toks() == old(serializer).toks() + self.enc_ver(*version) { unimplemented!() }
 }
 impl Clone for NativeScripts { #[verifier::external_body] fn clone(&self) -> (r: Self) ensures r == *self { unimplemented!() } }
+clone_eq!(CborContainerType);   // derived Clone of a field-less enum
